@@ -74,7 +74,7 @@ pub fn total(prop: &str, tier: u8) -> usize {
     core + n_random(prop, tier) + n_long(prop, tier)
 }
 
-fn long_history_prog(seed: u64, k: usize) -> Prog {
+pub fn long_history_prog(seed: u64, k: usize) -> Prog {
     use Ord_::*;
     let mut rng = Rng::new(seed, k as u64 ^ 0x10A6);
     let nlocs = 1 + rng.below(2);
